@@ -168,7 +168,34 @@ def run_nonascii(sv, res):
                 else:
                     res.outcome('ascii-only-folding')
                     res.nontrivial += 1 if expect_any else 0
+    run_fold_sweep(sv, res)
     return res
+
+
+def run_fold_sweep(sv, res):
+    """The folding function itself, on EVERY code point (surrogates included): 'A'-'Z' map to 'a'-'z', everything else to itself, nothing raises.
+    (A table, a codec round trip or str.lower() all differ from this somewhere.)"""
+    low = getattr(getattr(sv, 'util', None), 'lower', None)
+    if low is None:
+        return
+    bad = 0
+    for cp in range(0x110000):
+        ch = chr(cp)
+        want = chr(cp + 32) if 0x41 <= cp <= 0x5a else ch
+        res.evaluations += 1
+        try:
+            got = low('Q' + ch + 'q')
+        except Exception as e:
+            got = 'raise:' + type(e).__name__
+        if got != 'q' + want + 'q':
+            bad += 1
+            if bad <= 3:
+                res.fail({'layer': 'nonascii', 'pair': [ch, ch], 'text': 'lower:U+%04X' % cp},
+                         {'kind': 'fold', 'direction': 'raises' if got.startswith('raise:') else 'wrong', 'features': 'ascii' if cp < 0x80 else ('surrogate' if 0xd800 <= cp <= 0xdfff else 'non-ascii')},
+                         f'util.lower on U+{cp:04X} gives {got!r}, ASCII-only folding gives {"q" + want + "q"!r}')
+            else:
+                res.failure_count += 1
+    res.nontrivial += 26
 
 
 def shards(tier, seed):
